@@ -284,6 +284,10 @@ class Report:
                   'harness/*.py (generators, canonicalisation, lexer)']
             for t, ax in proof['axioms'].items():
                 tb.append(f'{t}: ' + ('closed under the global context' if not ax else 'axioms ' + ', '.join(ax)))
+            if proof.get('coqchk'):
+                tb.append('coqchk -o (independent checker) accepted Props/%s.vo; axioms of all loaded libraries: %s' % (
+                    self.prop, ', '.join(proof['coqchk']['axioms_of_all_loaded_libraries']) or 'none'))
+                cov['coqchk'] = proof['coqchk']
             cov['trusted_base'] = tb
         cov.setdefault('evaluations', 0)
         cov.setdefault('distinct_nontrivial', 0)
@@ -317,8 +321,32 @@ def fresh_cwd(prop: str) -> pathlib.Path:
     return d
 
 
-def static_obligations(rep: Report, prop: str):
-    """make + forbidden-word scan + Props/<prop>.v assumptions. Returns the proof dict."""
+def run_coqchk(prop: str) -> dict:
+    """independent re-check of Props/<prop>.vo and everything it depends on; axioms of all loaded libraries (coqchk -o)"""
+    r = subprocess.run(['timeout', '2400', 'coqchk', '-silent', '-o', '-Q', 'theories', 'Femto', f'Femto.Props.{prop}'],
+                       cwd=str(COQ), capture_output=True, text=True)
+    out = r.stdout + r.stderr
+    res = {'ok': r.returncode == 0, 'axioms': [], 'unsafe': [], 'log': out[-2500:]}
+    section = None
+    for ln in out.splitlines():
+        t = ln.strip()
+        if t.startswith('* '):
+            section = t[2:].split(':')[0]
+            rest = t.split(':', 1)[1].strip() if ':' in t else ''
+            if rest and rest != '<none>' and section != 'Theory':
+                (res['axioms'] if section == 'Axioms' else res['unsafe']).append(rest)
+        elif t and section in ('Axioms',):
+            res['axioms'].append(t)
+        elif t and section and section.startswith(('Constants/Inductives', 'Inductives whose')):
+            res['unsafe'].append(t)
+    res['bad_axioms'] = [a for a in res['axioms'] if not any(a == w or a.endswith('.' + w) for w in AXIOM_WHITELIST)]
+    if res['bad_axioms'] or res['unsafe']:
+        res['ok'] = False
+    return res
+
+
+def static_obligations(rep: Report, prop: str, tier: str = 'quick'):
+    """make + forbidden-word scan + Props/<prop>.v assumptions (+ coqchk -o in the thorough tier). Returns the proof dict."""
     ok, log = build_coq()
     if not ok:
         rep.violation('proof/build', 'the Coq development no longer builds',
@@ -331,4 +359,11 @@ def static_obligations(rep: Report, prop: str):
     if not proof['ok']:
         rep.violation('proof/props', f'Props/{prop}.v no longer checks', {'theorem': f'Props/{prop}.v', 'log': proof['log']},
                       no_input=True)
+    if tier == 'thorough':
+        chk = run_coqchk(prop)
+        proof['coqchk'] = {'ok': chk['ok'], 'axioms_of_all_loaded_libraries': chk['axioms'], 'unsafe': chk['unsafe']}
+        if not chk['ok']:
+            rep.violation('proof/coqchk', f'coqchk rejects Props/{prop}.vo or reports axioms / unchecked definitions outside the whitelist',
+                          {'theorem': f'coqchk -o Femto.Props.{prop}', 'bad_axioms': chk['bad_axioms'], 'unsafe': chk['unsafe'],
+                           'log': chk['log']}, no_input=True)
     return proof
